@@ -226,8 +226,8 @@ def hostport_unit(name, nq, nt, extra, bound, unwind, timeout=(600, 3000), **kw)
             '(decimal value in 1..65535, else -1 and invalid) equal the independent reference; port==NULL call form included; no leak / over-read under any allocation failure', **kw))
 
 
-hostport_unit('ref_parse_hostport', 7, 8, {}, 'all inputs of length exactly N (quick N=%d, thorough N=%d); shorter ones are covered as white-space padded inputs', 12)
-hostport_unit('ref_parse_hostport_short', 3, 5, {'ALL_LENGTHS': 1}, 'all inputs of every length 0..N (quick N=%d, thorough N=%d), each in a heap buffer of exactly that size', 9)
+hostport_unit('ref_parse_hostport', 6, 8, {}, 'all inputs of length exactly N (quick N=%d, thorough N=%d); shorter ones are covered as white-space padded inputs', 12)
+hostport_unit('ref_parse_hostport_short', 2, 5, {'ALL_LENGTHS': 1}, 'all inputs of every length 0..N (quick N=%d, thorough N=%d), each in a heap buffer of exactly that size', 9)
 
 # ======================================================================================================
 # 3. bounded: the port rule through the REAL htp_normalize_parsed_uri (port block) on a uri that carries only a port text
@@ -272,3 +272,28 @@ UNITS.append(U(
              'the port block does not depend on them', 'real bstr_util_mem_to_pint / htp_parse_positive_integer_whitespace (bstr.c linked)'],
     sub='port rule through the real htp_normalize_parsed_uri: port text (LWS* digits LWS*) in 1..65535 => port_number = decimal value; anything else => -1 and HTP_HOSTU_INVALID; '
         'no port text => -1; no other flag touched'))
+
+# ======================================================================================================
+# 4. contract units (dfcc, unbounded symbolic length): safety, termination, provenance / adjacency chain
+# ======================================================================================================
+AC = ['input length <= VCAP (symbolic), input is an inline or wrapped bstr that is only read',
+      'bstr_dup_mem replaced by a provenance-logging stub (contract_c13_dup_mem): its precondition "source range lies inside the input buffer" is asserted at every call; '
+      'that the copy is byte-identical is bstr_dup_mem\'s own contract (C17) and the bounded units',
+      'memchr replaced by contract_c13_memchr (NULL or an occurrence inside the range): CBMC 6.11 has no memchr model',
+      '*uri is NULL or a structure whose eight component pointers are NULL (htp_uri_alloc / calloc), as at every call site',
+      'KNOWN_F_C13_IPV6: after a "[...]" literal the contract only claims host_end <= next component (no overlap), not adjacency']
+
+UNITS.append(U(
+    name='htp_parse_uri', props=['C13', 'C01'], kind='contract', src=['htp_util.c'], enforce='htp_parse_uri',
+    replace=['bstr_dup_mem/contract_c13_dup_mem', 'memchr/contract_c13_memchr'], contracts_inc=['c13_uri.h'],
+    loops={'htp_util.c': {'htp_parse_uri': {'count': 5,
+        0: dict(assigns='len', inv=['len <= g_uri_len', '(gk >= len && gk < g_uri_len) ==> data[gk] == 32'], dec='len'),
+        1: dict(assigns='pos', inv=['pos <= len'], dec='len - pos'),
+        2: dict(assigns='pos', inv=['start <= pos', 'pos <= len'], dec='len - pos'),
+        3: dict(assigns='pos', inv=['start <= pos', 'pos <= len'], dec='len - pos'),
+        4: dict(assigns='pos', inv=['start <= pos + 1', 'pos <= len'], dec='len - pos')}}},
+    harness='void HARNESS(void) { bstr *in; htp_uri_t **u; htp_parse_uri(in, u); CANARY(); }',
+    defs={'quick': {'VCAP': 64}, 'thorough': {'VCAP': 4096}}, min_obl=100, timeout=(600, 1800), assumes=AC,
+    sub='htp_parse_uri for targets of ANY length: memory safety, termination, every component is taken from inside the target, and the full adjacency chain over the '
+        'provenance log (scheme at 0 + ":", "//", user [":" password] "@", host [":" port], path, "?" query, "#" fragment, last component ends where the trailing '
+        "spaces begin); '/'-targets have no scheme/authority"))
